@@ -20,7 +20,7 @@
   the entry instead); pieces of different space dimension.
 -/
 import FcModel.Mesh
-namespace Fc
+namespace Fc.C06
 
 /-! ### `_map_duplicate_points` -/
 
@@ -124,7 +124,7 @@ def dedupNames : List String → List String
 
 /-- `cell_fields[ct][name]` after both loops: concatenated if both sides have the field on `ct` -/
 def mergeCellEntry (name ct : String) : Option CellField → Option CellField → Option CellField
-  | some a, some b => some ⟨name, ct, a.values.concat b.values⟩
+  | some a, some b => some ⟨name, ct, NdArr.concat a.values b.values⟩
   | some a, none => some ⟨name, ct, a.values⟩
   | none, some b => some ⟨name, ct, b.values⟩
   | none, none => none   -- Python: KeyError
@@ -136,13 +136,13 @@ def mergeCellFields (types : List String) (cf1 cf2 : List CellField) : List Cell
 
 /-- a point field of the earlier mesh, extended by the later piece's kept rows (or zeros) -/
 def mergePointEntry (n2 : Nat) (filt : List Nat) (a : PointField) : Option PointField → PointField
-  | some b => ⟨a.name, a.values.concat (b.values.takeRows filt)⟩
-  | none => ⟨a.name, a.values.concat (a.values.zerosLike n2)⟩
+  | some b => ⟨a.name, NdArr.concat a.values (NdArr.takeRows b.values filt)⟩
+  | none => ⟨a.name, NdArr.concat a.values (NdArr.zerosLike a.values n2)⟩
 
 def mergePointFields (n1 n2 : Nat) (filt : List Nat) (pf1 pf2 : List PointField) : List PointField :=
   pf1.map (fun a => mergePointEntry n2 filt a (pf2.find? (·.name == a.name)))
   ++ (pf2.filter fun b => !(pf1.any (·.name == b.name))).map fun b =>
-      ⟨b.name, (b.values.zerosLike n1).concat (b.values.takeRows filt)⟩
+      ⟨b.name, NdArr.concat (NdArr.zerosLike b.values n1) (NdArr.takeRows b.values filt)⟩
 
 /-- `_merge(fields1, fields2, remove_duplicate_points=True)`; `srt` = the lexsort used -/
 def merge1 (srt : List (List Int) → List Nat) (f1 f2 : MeshFields) : MeshFields :=
@@ -221,4 +221,4 @@ def f3Class : List MeshFields → Bool
   | [] => false
   | f :: r => !laterBringNew f.mesh.points r
 
-end Fc
+end Fc.C06
